@@ -133,7 +133,7 @@ def yield_problems(mon: Monitor) -> list[tuple[str, str]]:
 
 
 def body_problems(mon: Monitor) -> list[tuple[str, str]]:
-    """Body executions of one invocation never overlap unless a kill/recovery lies between their starts."""
+    """Body executions of one invocation never overlap unless a kill/recovery lies between the first one's RUNNING write and the second one's start."""
     problems = []
     per: dict[str, list[dict[str, Any]]] = {}
     for b in sorted(mon.bodies, key=lambda b: b["seq"]):
@@ -144,7 +144,12 @@ def body_problems(mon: Monitor) -> list[tuple[str, str]]:
         for e in evs:
             if e["event"] == "enter":
                 for o in open_enters:
-                    between = [t for t in trans.get(inv, []) if o["seq"] < t["seq"] < e["seq"] and t["status"] in ("KILLED", "PENDING_RECOVERY", "RUNNING_RECOVERY")]
+                    # the earlier execution's hold starts with its RUNNING write (not with the first statement of the body): a kill or
+                    # recovery after that write releases the invocation although the doomed execution may still be (or get) inside the body
+                    ts_ = trans.get(inv, [])
+                    runs = [t["seq"] for t in ts_ if t["status"] == "RUNNING" and t["by"] == o["runner"] and t["seq"] < o["seq"]]
+                    start = runs[-1] if runs else o["seq"]
+                    between = [t for t in ts_ if start < t["seq"] < e["seq"] and t["status"] in ("KILLED", "PENDING_RECOVERY", "RUNNING_RECOVERY")]
                     if not between:
                         problems.append(("body-overlap", f"{inv}: body entered by {e['runner']} while still executing under {o['runner']} without kill/recovery in between"))
                 open_enters.append(e)
